@@ -19,7 +19,7 @@ def _md_of(md, k):
     return O.freeze(dict(e)) if e else ('D',)
 
 
-def diff(t, m, order=('exact', 'exact'), tol=False, ignore_type=False, ignore_md=False):
+def diff(t, m, order=('exact', 'exact'), tol=False, ignore_type=False, ignore_md=False, by_id=False):
     """None when table t shows the content of model m, else a short description.
     order = (observation, sample); 'set' compares ids as sets and values/metadata by id."""
     to, ts = O.ids(t, 'observation'), O.ids(t, 'sample')
@@ -55,4 +55,29 @@ def diff(t, m, order=('exact', 'exact'), tol=False, ignore_type=False, ignore_md
                     return '%s metadata of %s is %r, expected %r' % (name, x, g, e)
     if not ignore_type and t.type != m.type:
         return 'type %r, expected %r' % (t.type, m.type)
+    if by_id:
+        # the same content must be reachable through the id-keyed accessors
+        try:
+            for name, ids in (('observation', m.o), ('sample', m.c)):
+                mmd = m.md(name)
+                for k, x in enumerate(ids):
+                    if t.index(x, name) != k or not t.exists(x, name):
+                        return 'index(%r,%s)=%r, position is %d' % (x, name, t.index(x, name), k)
+                    if not ignore_md:
+                        g = t.metadata(x, name)
+                        g = O.freeze(dict(g)) if g else ('D',)
+                        e = O.freeze(dict(mmd[k])) if (mmd is not None and mmd[k]) else ('D',)
+                        if g != e:
+                            return 'metadata(%r,%s) is %r, expected %r' % (x, name, g, e)
+            for i, o in enumerate(m.o):
+                for j, s in enumerate(m.c):
+                    g = float(t.get_value_by_ids(o, s))
+                    if not _close(g, m.m[i][j], tol):
+                        return 'get_value_by_ids(%r,%r)=%r, expected %r' % (o, s, g, m.m[i][j])
+                if m.c:
+                    v = [float(x) for x in t.data(o, 'observation')]
+                    if any(not _close(a, b, tol) for a, b in zip(v, m.m[i])) or len(v) != len(m.c):
+                        return 'data(%r, observation)=%r, expected %r' % (o, v, m.m[i])
+        except Exception as e:     # noqa – a lookup that fails is a description, not a harness error
+            return 'id-keyed access failed: %s: %s' % (type(e).__name__, e)
     return None
